@@ -21,7 +21,7 @@ import (
 func init() {
 	register(&Check{
 		ID: "C19",
-		Rule: "all 584 histories of length <=3 over the 8 invocations {spec with/without components} x {client on/off} x {api-handler on/off} into one directory (exhaustive), plus rapid state-machine histories of length <=8 whose steps draw the spec from {small, larger} x {plain, upper-case path constants (output differs in letter case only), no paths at all} and also create/modify user files, pre-seed stale goag-owned files and tamper with generated ones (case flips, truncation, appended text, one byte, same-length garbage), a sample replayed through the CLI; " +
+		Rule: "all 584 histories of length <=3 over the 8 invocations {spec with/without components} x {client on/off} x {api-handler on/off} into one directory (exhaustive), plus rapid state-machine histories of length <=8 whose steps draw the spec from {small, larger} x {plain, upper-case path constants (output differs in letter case only), no paths at all, components holding only a shared parameter} and also create/modify user files, pre-seed stale goag-owned files and tamper with generated ones (case flips, truncation, appended text, one byte, same-length garbage), a sample replayed through the CLI; " +
 			"oracle (model = fresh run of the same invocation into an empty directory): after every step the goag-owned names and bytes equal the fresh run's, user files are byte-identical, and repeating the step changes nothing; " +
 			"non-trivial = history whose last step removes or rewrites a file an earlier step created; distinct by history",
 		Assume:    []string{"goag-owned files are exactly components.go, handler.go, router.go, spec_file.go, client.go (DESIGN.md §11)"},
@@ -66,6 +66,19 @@ func (iv invocation) spec(variant int) []byte {
 		if iv.Components {
 			d.Components = &specgen.Components{Schemas: map[string]*specgen.Schema{"Thing": {Type: "object", Properties: map[string]*specgen.Schema{"name": {Type: "string"}}}}}
 		}
+		return d.JSON()
+	}
+	if shape == 3 {
+		// the components section holds nothing but a shared parameter (no components.go
+		// results from it) - or, with Components, a shared response as well
+		d.Components = &specgen.Components{Parameters: map[string]*specgen.Parameter{"Limit": {Name: "limit", In: "query", Schema: &specgen.Schema{Type: "integer"}}}}
+		op := specgen.MinimalOp()
+		op.Parameters = []*specgen.Parameter{{Ref: specgen.RefParameters + "Limit"}}
+		if iv.Components {
+			d.Components.Responses = map[string]*specgen.Response{"Gone": {Description: specgen.Str("gone")}}
+			op.Responses["410"] = &specgen.Response{Ref: specgen.RefResponses + "Gone"}
+		}
+		d.Paths["/x"] = &specgen.PathItem{Get: op}
 		return d.JSON()
 	}
 	d.Paths["/x"] = &specgen.PathItem{Get: specgen.MinimalOp()}
@@ -268,7 +281,9 @@ func c19Worker(e *Env) *res.Result {
 		r.Sample(map[string]any{"history": names, "via_cli": useCLI, "held": true}, 3)
 	}
 	// (b) rapid state machine: longer histories with user files and stale files
-	userNames := []string{"notes.txt", "custom.go", "client_helpers.go", "handler_test.go", "components.go.bak", "router.go~", "README.md"}
+	// (files in sub-directories are the user's too, whatever their names)
+	userNames := []string{"notes.txt", "custom.go", "client_helpers.go", "handler_test.go", "components.go.bak", "router.go~", "README.md",
+		"v2/handler.go", "v2/router.go", "internal/spec_file.go", "internal/deep/client.go", "sub/components.go"}
 	n := 40
 	if !e.Quick() {
 		n = 300
@@ -289,7 +304,7 @@ func c19Worker(e *Env) *res.Result {
 				}
 				steps++
 				iv := rapid.SampledFrom(invs).Draw(t, "invocation")
-				variant := rapid.IntRange(0, 2).Draw(t, "variant") + 10*rapid.SampledFrom([]int{0, 0, 1, 1, 2}).Draw(t, "shape")
+				variant := rapid.IntRange(0, 2).Draw(t, "variant") + 10*rapid.SampledFrom([]int{0, 0, 1, 1, 2, 3, 3}).Draw(t, "shape")
 				trace = append(trace, fmt.Sprintf("generate %v variant=%d", iv, variant))
 				fail := cr.step(iv, variant, out, users, false)
 				r.Evaluations++
@@ -314,6 +329,7 @@ func c19Worker(e *Env) *res.Result {
 				name := rapid.SampledFrom(userNames).Draw(t, "userfile")
 				content := []byte(rapid.StringN(0, 40, 80).Draw(t, "content"))
 				trace = append(trace, "write user file "+name)
+				os.MkdirAll(filepath.Dir(filepath.Join(out, name)), 0o755)
 				os.WriteFile(filepath.Join(out, name), content, 0o644)
 				users[name] = content
 			},
